@@ -471,6 +471,7 @@ static struct hx_spawn_s hx_spawns[HX_MAXSPAWN];
 static int hx_nspawns;
 static int hx_nextpid = 5000;
 static int hx_lastpipe_r = -1;
+static int hx_pipe_fail;	/* number of pipe() calls to fail with EMFILE */
 static int hx_sticky_nd;	/* argv[2] of the latest spawn was -nd (the static args[] never forgets) */
 
 static void hx_collect_vtodo(struct hx_spawn_s *s);
@@ -479,6 +480,12 @@ static int
 hx_pipe(int fd[2])
 {
 	int r;
+	if (hx_pipe_fail > 0) {
+		/* injected fault: the daemon is out of file descriptors for a moment */
+		hx_pipe_fail--;
+		errno = EMFILE;
+		return -1;
+	}
 	if (hx_lastpipe_r >= 0 && hx_nspawns > 0) {
 		/* the previous run_task() of this iteration is complete by now */
 		hx_collect_vtodo(&hx_spawns[hx_nspawns - 1]);
